@@ -217,7 +217,11 @@ def ellipsoid_sd(q, s):
         lo, hi = 0.0, float(np.linalg.norm(s * q)) + 1.0
         while g(hi) > 0:
             hi *= 2
-        t = brentq(g, lo, hi, xtol=1e-15 * max(hi, 1), rtol=1e-15, maxiter=300)
+        try:
+            t = brentq(g, lo, hi, xtol=1e-15 * max(hi, 1), rtol=1e-15, maxiter=300)
+        except ValueError:          # f0 positive only by rounding: the point is on the surface to first order
+            grad = 2 * q / (s * s)
+            return float(f0 / max(np.linalg.norm(grad), 1e-300))
         y = s * s * q / (t + s * s)
         return float(np.linalg.norm(q - y))
     # inside: the nearest surface point; candidates are the roots of g in (-smin^2, 0) plus the axis-degenerate cases, so
